@@ -204,12 +204,39 @@ def tok_records(lx):
     return recs
 
 
+def multiline_loop(ck):
+    # ---- the layout "a line break inside a string literal" where the text is read statement by statement (script files, the REPL): the
+    # statement reader has to hand the parser the same text whether the line break is written as an escape or as a real line break, also when
+    # brackets and braces stand before the opening quote on the same line.  Each statement writes what it computed; CalcSem gives the output.
+    import sess
+    from astlib import assign as _as, fn as _fn, call as _call, N as _N, I as _I, St as _St, lst as _lst, ix1 as _ix1, iff as _iff, ife as _ife, block as _blk, wr as _wr, Bo as _Bo, bin_ as _bin, un as _un
+    ml = [[_as("a", _lst([_St("x\ny"), _I(2)])), _wr(_ix1(_N("a"), _I(0))), _wr(_call("toa", _un("#", _N("a"))))],
+          [_as("f", _fn(["c"], _blk([_as("t", _I(0)), _ife(_N("c"), _blk([_as("t", _I(1)), _wr(_St("yes"))]), _wr(_St("no\nno\n"))), _N("t")]))), _call("f", _Bo(False)), _call("f", _Bo(True))],
+          [_wr(_ix1(_lst([_St("one\ntwo"), _I(1)]), _I(0))), _wr(_St("after"))],
+          [_as("x", _lst([_lst([_I(1), _St("p\nq")]), _lst([_St("r\ns")])])), _wr(_ix1(_ix1(_N("x"), _I(1)), _I(0))), _wr(_ix1(_ix1(_N("x"), _I(0)), _I(1)))],
+          [_iff(_Bo(True), _blk([_as("u", _I(1)), _wr(_St("a\nb"))])), _wr(_St("after"))],
+          [_as("m", _lst([_I(1), _lst([_I(2), _St("u\nv"), _lst([_I(3)])]), _St("w\nz")])), _wr(_bin("+", _ix1(_ix1(_N("m"), _I(1)), _I(1)), _ix1(_N("m"), _I(2))))],
+          [_as("g", _fn(["p"], _blk([_as("q", _lst([_N("p"), _St("in\nside")])), _iff(_bin("==", _N("p"), _I(1)), _blk([_as("q", _lst([_St("then\n")])), _wr(_ix1(_N("q"), _I(0)))])), _ix1(_N("q"), _I(0))]))), _call("g", _I(1)), _call("g", _I(2))]]
+    msess = [{"id": i + 1, "items": items + [_wr(_St("end"))], "stdin": [], "meta": {"multiline": i}} for i, items in enumerate(ml)]
+    for lname, lay in (("escapes", None), ("real line breaks", lambda t: t.replace("\\n", "\n"))):
+        for v in sess.judge_via_loop(msess, cmp=("value",), ck=ck, part="string literals spanning lines read statement by statement (%s)" % lname, layout=lay):
+            ck.cov["evaluations"] += 1
+            ck.cov["traces_validated_against_impl"] += 1
+            if v.status != "accept":
+                ck.violation("statements with string literals spanning lines (%s), read statement by statement: %s: %s" % (lname, " / ".join(t.replace("\n", "<LF>") for t in v.texts)[:200], json.dumps(v.info)[:400]),
+                             {"src": "\n".join(v.texts), "want": None, "via": "loop", "layout": lname})
+    ck.part("string literals spanning lines read statement by statement (escapes and real line breaks)", sessions=2 * len(msess))
+
+
 def run(tier, replay=None):
     ck = vlib.Check("C07", tier)
     seed = vlib.seed()
     rnd = random.Random(seed)
     if replay:
         case = json.load(open(replay))["case"]
+        if case.get("via") == "loop":
+            multiline_loop(ck)
+            return ck.finish()
         res = frontlib.run_front([{"id": 1, "src": case["src"], "wantast": True}])
         p = res[1]["parse"]
         if not (p["outcome"] == "ok" and "ast" in p and p["ast"] == case.get("want")):
@@ -334,6 +361,7 @@ def run(tier, replay=None):
             else:
                 agree += 1
     ck.part("corrupted texts: model vs real parser", cases=len(tl), agree=agree)
+    multiline_loop(ck)
     ck.cov["rule"] = ("every ordered pair of the 17 binary operators in both nestings; unary x binary in three nestings, unary x unary, unary x atoms; index forms over 13 base kinds x 7 index kinds "
                       "and chains of three; statement forms x one-line/braced bodies x nesting depth 2; calls/arrays/function literals with 0-3 elements in every position; random trees; "
                       "each x token layouts {plain, redundant parentheses everywhere, blank lines in blocks and arrays} x text styles {single blanks, compact, random blanks/tabs, comments}; "
